@@ -115,6 +115,14 @@ pub fn observe<T: CellT>(t: &TooDee<T>) -> Obs {
         o.index_ok = false;
         return o;
     }
+    // the other read accessors of the raw data denote the same slice
+    let as_slice: &[T] = t.as_ref();
+    let as_vec: &Vec<T> = t.as_ref();
+    if as_slice.as_ptr() != t.data().as_ptr() || as_slice.len() != len || as_vec.len() != len || as_vec.as_ptr() != t.data().as_ptr()
+        || t.is_empty() != (len == 0) || t.size() != (nc, nr)
+    {
+        o.index_ok = false;
+    }
     let rows_len = t.rows().len();
     let cells_len = t.cells().len();
     let col_lens: Vec<usize> = (0..nc).map(|c| t.col(c).len()).collect();
@@ -202,8 +210,11 @@ impl<T: CellT + std::hash::Hash> Machine<T> {
                 res_unit()
             }
             "with_capacity" => {
-                self.installed(TooDee::with_capacity(get_u64(a, "k") as usize));
-                res_unit()
+                let k = get_u64(a, "k") as usize;
+                let t = TooDee::<T>::with_capacity(k);
+                let ok = t.capacity() >= k || std::mem::size_of::<T>() == 0;
+                self.installed(t);
+                if ok { res_unit() } else { json!({"k": "unit", "capacity_short": true}) }
             }
             "new" => {
                 let t = TooDee::<T>::new(conc[0], conc[1]);
